@@ -19,6 +19,8 @@ type runner func(res *Result, rng *RNG, tier string, outDir string)
 
 var runners = map[string]runner{}
 
+var currentOutDir string
+
 func main() {
 	if len(os.Args) < 2 {
 		fatal("usage: harness <property> [--seed N] [--tier quick|thorough] [--out DIR]")
@@ -46,6 +48,8 @@ func main() {
 	// depend on it (dates are seconds since the epoch, printed in UTC)
 	time.Local = time.FixedZone("verif-zone", 5*3600+1800)
 	res := NewResult(prop, *tier, *seed)
+	currentResult = res
+	currentOutDir = *out
 	run(res, NewRNG(*seed), *tier, *out)
 	res.Write(*out)
 	fmt.Printf("\nharness %s: %d evaluations, %d distinct non-trivial, %d model cases, %d oracle violations\n",
